@@ -30,7 +30,7 @@ theorem SB.trans {a b c : Mach} (h1 : SB a b) (h2 : SB b c) : SB a c :=
       omega⟩
 
 theorem SB.ofBnd {a b : Mach} (h : Bnd a b) : SB a b :=
-  ⟨h.1, h.2.1, h.2.2.2, fun H _ => by rw [h.2.2.1]; omega⟩
+  ⟨h.1, h.2.1, h.2.2.2.1, fun H _ => by rw [h.2.2.1]; omega⟩
 
 /-- a machine that differs from `b` in none of the four things -/
 theorem SB.same {a b c : Mach} (h : SB a b) (e1 : c.stackLimit = b.stackLimit) (e2 : c.heapLimit = b.heapLimit)
